@@ -938,3 +938,97 @@ func ruleC24close(c *Ctx, r *Report) {
 	}
 	_ = strings.TrimSpace
 }
+
+func init() {
+	register("C24", "", ruleC24once)
+	register("C38", "", ruleC38buf, rulePC1) // a leak of a shared pool slot on a client-triggerable exit starves other sessions
+}
+
+// ruleC24once (EO-C24): one slot goes back per release: on every path through connectionPoolImpl.Put exactly one
+// ResourcePool.Put is executed, and on every path through pooledConnectImpl.Recycle exactly one ConnectionPool.Put.
+func ruleC24once(c *Ctx, r *Report) {
+	const rule = "EO-C24"
+	r.floor(rule, 2)
+	rpPut := c.Method("util", "ResourcePool", "Put")
+	cpPut := c.Method("backend", "connectionPoolImpl", "Put")
+	cpPutI := c.IfaceMethod("backend", "ConnectionPool", "Put")
+	recycle := c.Method("backend", "pooledConnectImpl", "Recycle")
+	if rpPut == nil || cpPut == nil || recycle == nil || cpPutI == nil {
+		r.undecided(rule, "backend", "anchor", "-", "anchors not found")
+		return
+	}
+	check := func(fn *ssa.Function, isPut func(cc *ssa.CallCommon) bool, what string) {
+		name := c.FuncName(fn)
+		n := 0
+		for _, ret := range returnsOf(fn) {
+			n++
+			min, max := countOnPaths(fn, ret, func(in ssa.Instruction) bool {
+				if _, isD := in.(*ssa.Defer); isD {
+					return false
+				}
+				cc := callCommon(in)
+				return cc != nil && isPut(cc)
+			})
+			cons := fmt.Sprintf("return#%d:exactly-one-%s", n, what)
+			if min == 1 && max == 1 {
+				r.ok(rule, name, cons, c.Pos(exitPos(ret)), "every path to this return hands back exactly one slot")
+			} else {
+				r.viol(rule, name, cons, c.Pos(exitPos(ret)), fmt.Sprintf("a path to this return executes %s between %d and %d times: a release that returns no slot leaks it, one that returns two over-fills the pool (the same slot is issued to two holders)", what, min, max))
+			}
+		}
+		if n == 0 {
+			r.undecided(rule, name, "returns", c.Pos(fn.Pos()), "no return")
+		}
+	}
+	check(cpPut, func(cc *ssa.CallCommon) bool { return callsFunc(cc, rpPut) }, "ResourcePool.Put")
+	check(recycle, func(cc *ssa.CallCommon) bool { return callsFunc(cc, cpPut) || callsIfaceMethod(cc, cpPutI) }, "ConnectionPool.Put")
+}
+
+// ruleC38buf (BP-C38c): the packet-buffer pool is shared by all sessions: a buffer given back with bufPool.Put is
+// forgotten by its connection on every path (currentEphemeralBuffer is overwritten before the function returns), so it
+// cannot be given back a second time and end up in two sessions at once.
+func ruleC38buf(c *Ctx, r *Report) {
+	const rule = "BP-C38c"
+	r.floor(rule, 2)
+	bufF := c.Field("mysql", "Conn", "currentEphemeralBuffer")
+	mp := c.Pkg("mysql")
+	if bufF == nil || mp == nil {
+		r.undecided(rule, "mysql.Conn", "anchor", "-", "currentEphemeralBuffer not found")
+		return
+	}
+	n := 0
+	for _, fn := range c.Funcs {
+		root := fn
+		for root.Parent() != nil {
+			root = root.Parent()
+		}
+		if root.Pkg != mp {
+			continue
+		}
+		allInstrs(fn, func(in ssa.Instruction) {
+			call, ok := in.(*ssa.Call)
+			if !ok {
+				return
+			}
+			f := call.Call.StaticCallee()
+			if f == nil || f.Name() != "Put" || len(call.Call.Args) < 2 || loadedField(call.Call.Args[1]) != bufF {
+				return
+			}
+			n++
+			name := c.FuncName(fn)
+			cons := "put-buffer@" + ordinalByLabel(fn, in, "Put")
+			exits := searchExits(fn, in, nil, SearchOpts{Stop: func(x ssa.Instruction) bool {
+				st, ok := x.(*ssa.Store)
+				return ok && fieldOfAddr(st.Addr) == bufF
+			}})
+			if len(exits) == 0 {
+				r.ok(rule, name, cons, c.Pos(in.Pos()), "the connection forgets the buffer on every path after giving it back")
+			} else {
+				r.viol(rule, name, cons, c.Pos(in.Pos()), "the buffer is given back to the shared pool but stays attached to the connection: the caller's cleanup gives it back again and two sessions receive the same buffer (one session's packet is overwritten by another's)", c.pathStrings(exits[0])...)
+			}
+		})
+	}
+	if n == 0 {
+		r.undecided(rule, "mysql", "put-buffer", "-", "no release of the ephemeral buffer found")
+	}
+}
